@@ -24,8 +24,17 @@ def repo_binary(release=False):
     tgt = os.path.join(CACHE, 'target-hook')
     env = dict(ENV, RUSTFLAGS='--cfg ' + GUARD, CARGO_TARGET_DIR=tgt)
     cmd = ['cargo', 'build', '--offline', '--quiet'] + (['--release'] if release else [])
-    sh(cmd, cwd=REPO, env=env, timeout=1800)
+    global HOOKS_OK, HOOKS_ERROR
+    try:
+        sh(cmd, cwd=REPO, env=env, timeout=1800)
+    except BuildError as e:
+        # The guarded hook code (src/verif_hooks.rs and the cfg'd accessors) no longer compiles against the tree - e.g. an internal function it calls was renamed.
+        # That is not a property violation: fall back to the plain build (guard off); the in-process correspondences are skipped and reported, the black-box ones remain.
+        HOOKS_OK = False; HOOKS_ERROR = str(e)[-1500:]
+        tgt = os.path.join(CACHE, 'target-plain')
+        sh(cmd, cwd=REPO, env=dict(ENV, CARGO_TARGET_DIR=tgt), timeout=1800)
     return os.path.join(tgt, 'release' if release else 'debug', 'rusty-blockparser')
+HOOKS_OK = True; HOOKS_ERROR = ''
 
 def ldbw():
     src = os.path.join(VERIF, 'tools', 'ldbw')
